@@ -120,6 +120,7 @@ type Gen struct {
 	canaryN  int
 	notes    []string
 	ufDecl   map[string]string
+	replay   *ReplayInfo
 }
 
 type engineError struct{ msg string }
@@ -597,6 +598,8 @@ type Frame struct {
 	isTop   bool
 	iterOrd int
 	rangeIt map[ssa.Value]*rangeState
+	iterCells map[ssa.Value]*Cell
+	loopInfos map[*ssa.BasicBlock]*loopInfo
 }
 
 type retInfo struct {
@@ -757,7 +760,8 @@ func (g *Gen) runFunc(fn *ssa.Function, args []Val, free []Val, st *State, reach
 	g.ctr++
 	f := &Frame{g: g, fn: fn, prefix: fmt.Sprintf("f%d_", g.ctr), vals: map[ssa.Value]Val{}, reach: map[*ssa.BasicBlock]string{},
 		exit: map[*ssa.BasicBlock]*State{}, edge: map[[2]int]string{}, depth: depth, spec: spec, isTop: isTop,
-		loopOrd: map[*ssa.BasicBlock]int{}, loopBlk: map[*ssa.BasicBlock]map[*ssa.BasicBlock]bool{}, rangeIt: map[ssa.Value]*rangeState{}}
+		loopOrd: map[*ssa.BasicBlock]int{}, loopBlk: map[*ssa.BasicBlock]map[*ssa.BasicBlock]bool{}, rangeIt: map[ssa.Value]*rangeState{},
+		iterCells: map[ssa.Value]*Cell{}, loopInfos: map[*ssa.BasicBlock]*loopInfo{}}
 	if isTop {
 		f.prefix = ""
 	}
